@@ -89,7 +89,7 @@ CHECKS = {
         text=("Lean theorems: the generated skip bookkeeping omits exactly the reference selection (exclude, dump=False, skip_defaults "
               "with the argument winning, skip_defaults_if, per-field SkipIf else Meta.skip_if) whenever no comparison raises; operator "
               "table regenerated from the source; NaN comparison value selects nothing; model tied to the code on literal class models, "
-              "oracle against Condition.evaluate over hashable/unhashable/non-finite/Enum/object comparison values"),
+              "oracle against Condition.evaluate over hashable/unhashable/non-finite/Enum/object comparison values. The generated code itself: an interpreter of the statement forms of the dump-function generator model (DW/Model/GenDumpSem.lean) and theorem C11_generated_code_selects - for every class, Meta, exclude / skip_defaults arguments and instance whose comparisons do not raise, running the body the generator writes yields exactly the reference selection (entries in order, catch-all items, tag) and never gets stuck; tie: generated text == generator model byte for byte, and the dict the real function returns == the dict rebuilt from the interpreter emissions (harness/props/c11_gencode.py)"),
         technique='Lean 4 proof over a hand model + generated operator table + differential correspondence', ref='4 C11'),
     'C12': dict(
         text=("Lean theorems for both engines: merge specification (own setting wins, else root's) for every modelled mergeable setting, special attributes never inherited, recursive=False hands nothing down, the travelling config passes unchanged through every container and nested instance on dump and load; v1: a class two levels down is configured with merge(own, root) and its loader contains no mention of the intermediate class's Meta; attribute sets regenerated from AbstractMeta; models tied to the code over the settings lattice x shapes x binding styles, 2- and 3-level v1 nestings with 6 link shapes, v1 nested classes with a tag / tag_key / unknown-key policy / CatchAll of their own judged against a twin class, and default-engine roots with recursive_classes (lazily resolved nested classes, self-referential roots) judged against a twin"),
